@@ -1,6 +1,7 @@
 package main
 
 import (
+	"strconv"
 	"fmt"
 	"go/types"
 	"os"
@@ -415,7 +416,7 @@ func collectWatches(e Expr, w map[string]bool) {
 		}
 		if id, ok := x.Fun.(*EIdent); ok && id.Name == "lastret" && len(x.Args) >= 1 {
 			if s, ok := x.Args[0].(*EStr); ok {
-				w["lastret "+normAnchor(s.Val)] = true
+				w[lastretKey(s.Val)] = true
 			}
 		}
 		for _, a := range x.Args {
@@ -724,4 +725,15 @@ func (g *Gen) sentinelError(gl *ssa.Global) bool {
 		return true
 	}
 	return false
+}
+
+// lastretKey maps the string argument of lastret() to its ghost key: "callee" (latest call of that callee on the
+// path) or "callee#k" (the k-th call site in source order).
+func lastretKey(arg string) string {
+	if i := strings.LastIndex(arg, "#"); i > 0 {
+		if k, err := strconv.Atoi(arg[i+1:]); err == nil {
+			return fmt.Sprintf("lastret %s@%d", normAnchor(arg[:i]), k)
+		}
+	}
+	return "lastret " + normAnchor(arg)
 }
